@@ -151,6 +151,8 @@ def scenario_docs(k: int, rng: random.Random):
             {"country_code": cc, "bic": "AAAADEFFXXX", "name": "V2 one", "short_name": "V2-1", "bank_codes": codes[:3]},
             {"country_code": cc, "bic": "BBBBDEFF", "name": "V2 two", "short_name": "V2-2", "primary": True, "bank_codes": codes[2:5]},
             {"country_code": cc, "bic": "", "name": "V2 three", "short_name": "V2-3", "bank_codes": [codes[5], codes[0]]},
+            # listed values are codes, whatever they look like: one entry per listed value, nothing else
+            {"country_code": cc, "bic": "EEEEDEFF", "name": "V2 four", "short_name": "V2-4", "bank_codes": ["062-000", "0040-0043", "0043-0040", "10..12", "1,2", "7*", " 12 ", "", "A-C"]},
         ]}
         ov["bank_registry/a_first.v2.json"] = {"expand_from": "codes", "expand_into": "bank_code", "entries": [
             {"country_code": cc, "bic": "CCCCDEFF123", "name": "V2 first", "short_name": "V2-0", "primary": False, "codes": [codes[2]]}]}
